@@ -167,6 +167,7 @@ def check(run):
     run.samples = [chosen[0]["abs"], chosen[len(chosen) // 2]["abs"]]
     loadfam.replay_load(run, chosen, "Trace_Ranges", "Trace_Ranges.cfg", build_features=("json", "quote"),
                         variant="json-quote", key_of=_key)
+    loadfam.replay_suppressed(run, chosen, "Trace_Ranges", "Trace_Ranges.cfg", _key, step=8)
     run.notes["l2_render_events"] = run_l2(run, cases, rng, 12 if quick else 120, 60 if quick else 800)
     run.notes["l2_many_branch_events"] = run_manybranch(run)
     run.exhaustive = len(chosen) == len(cases)
